@@ -91,6 +91,17 @@ impl MountFds {
         }
     }
 
+    /// Verification hook: number of mount fds currently alive.
+    #[cfg(fuse_backend_rs_verif)]
+    pub fn verif_len(&self) -> usize {
+        self.map
+            .read()
+            .unwrap()
+            .values()
+            .filter(|w| w.strong_count() > 0)
+            .count()
+    }
+
     pub fn get<F>(&self, mount_id: MountId, reopen_fd: F) -> MPRResult<Arc<MountFd>>
     where
         F: FnOnce(RawFd, libc::c_int, u32) -> io::Result<File>,
